@@ -37,6 +37,8 @@ pub struct Knobs {
     pub oversleep_max_ns: u64,
     pub rcvbuf: usize,
     #[serde(default)]
+    pub sched_policy: u8,
+    #[serde(default)]
     pub preempt_ppm: u32,
     #[serde(default)]
     pub preempt_max_ns: u64,
@@ -146,6 +148,7 @@ fn knobs(r: &mut Rng, profile: Profile, seed: u64) -> Knobs {
         rcvbuf: 256,
         preempt_ppm: 0,
         preempt_max_ns: 0,
+        sched_policy: *r.pick(&[0u8, 0, 1, 2]),
     };
     let some = |r: &mut Rng, v: &[u32]| if r.chance(2, 3) { *r.pick(v) } else { 0 };
     match profile {
@@ -395,13 +398,14 @@ pub fn generate(seed: u64, focus: &str, profile: Profile) -> Scenario {
     let mut nodes: Vec<NodeSpec> = Vec::new();
     let mut root: Vec<(u64, RootStep)> = Vec::new();
     let long_run = matches!(focus, "C20" | "C15") && r.chance(1, 6);
-    let duration_ms: u64 = if long_run { *r.pick(&[130_000u64, 5_000_000]) } else { *r.pick(&[3_000u64, 8_000, 20_000, 70_000]) };
+    let duration_ms: u64 = if long_run { *r.pick(&[130_000u64, 130_000, 5_000_000]) } else { *r.pick(&[3_000u64, 8_000, 20_000, 70_000]) };
     let t_in = |r: &mut Rng, lo: u64, hi: u64| lo + r.below((hi - lo).max(1));
 
     // ---- topology
     let n_disc = match focus {
         "C13" => r.usize_below(2),
         "C14" => 1 + r.usize_below(2),
+        _ if duration_ms > 1_000_000 => 2 + r.usize_below(2),
         _ => 2 + r.usize_below(3),
     };
     let n_resp = match focus {
@@ -700,7 +704,8 @@ pub fn generate(seed: u64, focus: &str, profile: Profile) -> Scenario {
         root,
         duration_ms,
         probe: true,
-        max_steps: 60_000,
+        // long runs (they cross the 4500 s TTL) need a larger step budget
+        max_steps: if duration_ms > 1_000_000 { 600_000 } else if duration_ms > 100_000 { 150_000 } else { 60_000 },
         v6: r.chance(1, 8),
     }
 }
